@@ -63,8 +63,8 @@ MODELLED = [
     "TabularToSeriesAdaptor: affine scalers only (StandardScaler, MinMaxScaler), one column",
     "OptionalPassthrough: modelled as `if passthrough then identity else inner`",
     "Detrender.update: the forecaster's own update/refit is an oracle (any trend function); gapped "
-    "or overlapping update batches and update(update_params=True) before any horizon was seen "
-    "(ValueError, property C10's finding) are not generated",
+    "or overlapping update batches are not generated (the forecaster's remembered series would "
+    "get a non-monotonic index)",
     "the TRAINING series is always contiguous (statsmodels decomposes positionally; "
     "C13_training_series_component is stated for a contiguous training series); gapped indices are "
     "generated for the transformed stretch only, on Int64 / Period / Datetime indices; DataFrame "
@@ -270,8 +270,9 @@ def _gen_detrend(rng, cases, count):
             ups.append({"at": at, "vals": _plain_series(rng, ln, False),
                         "params": rng.random() < 0.6})
             at += ln
-        # update(update_params=True) refits with self.fh: a horizon must have been seen (C10)
-        pre = any(u["params"] for u in ups) or rng.random() < 0.3
+        # update(update_params=True) refits; since fix 53a6ca7 that no longer needs a horizon to
+        # have been seen, so histories with and without an earlier transform() both occur
+        pre = rng.random() < 0.4
         c = _common(rng, "detrend", {"degree": deg}, y, off, z, ups, pre=pre)
         cases.append(_with_gaps(rng, c, sp) if rng.random() < 0.3 else c)
 
@@ -762,7 +763,7 @@ def shrink(case):
         d["ups"] = c["ups"][:i] + c["ups"][i + 1:]
         if c["kind"] != "detrend" or not d["ups"]:
             yield d
-    if c["pre"] and not any(u["params"] for u in c["ups"]):
+    if c["pre"]:
         d = dict(c)
         d["pre"] = False
         yield d
